@@ -26,12 +26,27 @@ from pydsol.core.units import Duration
 from pydsol.core.utils import DSOLError
 
 CONCS = ("float", "int", "dur", "mixed")
+CONCS_OFF = ("float", "int", "dur", "mixed", "float+6", "int-3", "dur+2", "int+7", "mixed-1")
 BAD = -999
 
 
 class Conc:
+    """name[+off]: e.g. "float", "int+5", "dur-3": the replication starts at T(off) and every absolute
+    spec time k is the real time T(off + k) (delays are unaffected)."""
+
     def __init__(self, name):
+        self.full = name
+        self.off = 0
+        for sign in "+-":
+            if sign in name[1:]:
+                base, _, o = name.partition(sign) if sign == "+" else name.rpartition(sign)
+                name, self.off = base, int(sign + o)
+                break
         self.name = name
+
+    def at(self, k, alt=0):
+        """absolute spec time k -> real time"""
+        return self.t(k + self.off, alt)
 
     def sim(self, nm="s"):
         if self.name == "float":
@@ -69,7 +84,7 @@ class Conc:
                 v = v / 15.0
             if v != v or v != int(v):
                 return BAD
-            return int(v)
+            return int(v) - self.off
         except Exception:
             return BAD
 
@@ -170,7 +185,7 @@ class SimCtl:
                 elif k == "rel":
                     e = sim.schedule_event_rel(c.t(a, self.alt), self.model, "h", p, k=rank)
                 elif k == "abs":
-                    e = sim.schedule_event_abs(c.t(a, self.alt), self.model, "h", p, k=rank)
+                    e = sim.schedule_event_abs(c.at(a, self.alt), self.model, "h", p, k=rank)
                 elif k == "nan_abs":
                     e = sim.schedule_event_abs(c.nan(), self.model, "h", p, k=rank)
                 elif k == "nan_rel":
@@ -284,7 +299,7 @@ class SimCtl:
         self.obs = []
         old = self.worker()
         c = self.conc
-        repl = SingleReplication("rep", c.t(0), c.t(self.warm_t), c.t(self.end_t))
+        repl = SingleReplication("rep", c.at(0), c.t(self.warm_t), c.t(self.end_t))
         e = self._call("Initialize", lambda: self.sim.initialize(self.model, repl), {"a": "Initialize", "ops": self.init_ops or []})
         if e["res"] == "ok":
             self.warm_rank = self.next_rank + 1
@@ -308,9 +323,9 @@ class SimCtl:
         if name == "Start":
             e = self._call(name, sim.start, {"a": name})
         elif name == "RunUpTo":
-            e = self._call(name, lambda: sim.run_up_to(c.t(b)), {"a": name, "b": b})
+            e = self._call(name, lambda: sim.run_up_to(c.at(b)), {"a": name, "b": b})
         else:
-            e = self._call(name, lambda: sim.run_up_to_including(c.t(b)), {"a": name, "b": b})
+            e = self._call(name, lambda: sim.run_up_to_including(c.at(b)), {"a": name, "b": b})
         if e["res"] == "ok" and pause_after is not None:
             t0 = _time.time()
             hit = False
